@@ -43,6 +43,11 @@ impl WeightedMean {
         // and
         // http://people.ds.cam.ac.uk/fanf2/hermes/doc/antiforgery/stats.pdf.
         self.weight_sum += weight;
+        if self.weight_sum == 0. {
+            // Only zero weights so far: there is nothing to average yet, and
+            // dividing by the weight sum would poison the mean with NaN.
+            return;
+        }
 
         let prev_avg = self.weighted_avg;
         self.weighted_avg = prev_avg + (weight / self.weight_sum) * (sample - prev_avg);
